@@ -79,7 +79,10 @@ class ImmutableKnotVector(tuple):
         return instance
 
     def __add__(self, nodes: Tuple[float]) -> ImmutableKnotVector:
-        return self.__class__(sorted(list(self) + list(nodes)))
+        newvector = sorted(list(self) + list(nodes))
+        if newvector[0] != self[0] or newvector[-1] != self[-1]:
+            raise ValueError("Cannot insert nodes outside the interval")
+        return self.__class__(newvector)
 
     def __sub__(self, nodes: Tuple[float]) -> ImmutableKnotVector:
         lista = list(self)
